@@ -12,7 +12,7 @@ bufmon.install()
 
 ID = "C17"
 LEVEL = "exploration"
-N_QUICK, N_THOROUGH = 90000, 1000000
+N_QUICK, N_THOROUGH = 150000, 1000000
 T_QUICK, T_THOROUGH = 70, 1500
 FLOORS = {"scalar_echo_calls": 20000, "scalar_extremes": 3000, "object_address_calls": 5000, "addresses_after_growth": 800,
           "pointer_arg_calls": 3000, "xobject_array_pointer_calls": 200, "slice_pointer_calls": 200, "noncontiguous_2d_pointer_calls": 200, "refusals_checked": 3000, "calls_via_attribute_dispatch": 5000, "calls_after_rebuilding_a_kernel_name": 100,
